@@ -134,7 +134,7 @@ fn expected(call: &Call) -> Vec<u8> {
 }
 
 pub const D4_FAULTS: &[&str] = &["sink_capacity_exhausted_zero", "sink_capacity_exhausted_error", "sink_short_write", "sink_interrupted", "slice_too_small"];
-pub const D4_PROBES: &[&str] = &["write_headers", "http_headers", "simple_redirect", "custom_reason", "zero_headers", "empty_name_or_value", "capacity_exact"];
+pub const D4_PROBES: &[&str] = &["hundreds_of_header_lines", "header_value_over_64k", "write_headers", "http_headers", "simple_redirect", "custom_reason", "zero_headers", "empty_name_or_value", "capacity_exact"];
 
 pub fn c20(cx: &mut Ctx) -> VResult {
     cx.declare(D4_FAULTS, D4_PROBES);
@@ -145,9 +145,16 @@ pub fn c20(cx: &mut Ctx) -> VResult {
     for code in codes {
         let call = match kind {
             0 => {
-                let n = cx.ch.weighted(&[1, 2, 2, 1]);
+                // scale: rarely hundreds of header lines or one very long value (capacities are then sampled, see below)
+                let scale = cx.ch.chance(1, 60);
+                let n = if scale && cx.ch.chance(1, 2) { cx.probe("hundreds_of_header_lines"); cx.ch.range(260, 900) } else { cx.ch.weighted(&[1, 2, 2, 1]) };
                 if n == 0 { cx.probe("zero_headers"); }
                 let mut headers = Vec::new();
+                if scale && n < 10 {
+                    let l = cx.ch.one_of(&[65535usize, 65536, 70000, 200_000]);
+                    cx.probe("header_value_over_64k");
+                    headers.push((b"x-large".to_vec(), no_newline(gen_bytes(cx, l))));
+                }
                 for _ in 0..n {
                     let nl = cx.ch.weighted(&[1, 4, 1]);
                     let name = match nl { 0 => Vec::new(), 1 => gen_token(cx, 1, 14).into_bytes(), _ => { let l = cx.ch.range(1, 40); no_newline(gen_bytes(cx, l)) } };
@@ -226,7 +233,15 @@ pub fn c20(cx: &mut Ctx) -> VResult {
             script.push(match cx.ch.weighted(&[3, 2, 1]) { 0 => 0, 1 => cx.ch.range(1, 12) as u8, _ => 255 });
         }
         let full = if cx.ch.chance(1, 2) { FullMode::Error } else { FullMode::Zero };
-        for cap in 0..=exp.len() + 1 {
+        // every capacity for ordinary responses; for the large ones the first and last 80 and ~150 in between
+        let caps: Vec<usize> = if exp.len() <= 4000 { (0..=exp.len() + 1).collect() } else {
+            let mut v: Vec<usize> = (0..80).collect();
+            let step = (exp.len() / 150).max(1);
+            v.extend((80..exp.len().saturating_sub(80)).step_by(step));
+            v.extend(exp.len().saturating_sub(80)..=exp.len() + 1);
+            v
+        };
+        for cap in caps {
             let mut sink = Sink { cap, acc: Vec::new(), script: script.clone(), call: 0, full, interrupts: 0, shorts: 0, refused: 0, vectored: 0 };
             let res = guard(|| invoke(&mut sink));
             let res = match res { Ok(r) => r, Err(p) => vfail!("panic", "cgi::response", "writer panicked with capacity {cap}: {p}") };
